@@ -341,7 +341,8 @@ def check_scan_full(case):
     if nframes != len(pwms):
         _add(out, None, 'dim=0 returned %d DataFrames for %d motifs' % (nframes, len(pwms)))
     got = keyset(rows)
-    stats = {'expected': 0, 'expected_last': 0, 'expected_first': 0, 'reported': len(rows), 'neg_score_hits': 0, 'free': 0}
+    stats = {'expected': 0, 'expected_last': 0, 'expected_first': 0, 'reported': len(rows), 'neg_score_hits': 0, 'free': 0,
+             'exact_windows': 0, 'exact_ties': 0, 'beyond_65535': 0, 'seqidx_ge_128': 0}
 
     # window contents reported per (motif, strand): table-independent evidence for the last-window class
     reported_words = {}
@@ -351,8 +352,10 @@ def check_scan_full(case):
             if 0 <= start <= len(seqs[si]) - w:
                 reported_words.setdefault((mi, st), set()).add(seqs[si][start:start + w])
 
-    def classify(ref, key, score, start, L, kind, word=None):
+    def classify(ref, key, score, start, L, kind, word=None, ex=False):
         ok = table_ok(ref, tcache, key)
+        if kind == 'extra' and ex and ok and score == ref.T_lo:
+            return 'score-equal-to-threshold-reported'
         if kind in ('p>=thr', 'extra'):
             if ref.near_edge(score) and (ok or kind == 'p>=thr'):
                 return 'float32-score-threshold'
@@ -377,14 +380,20 @@ def check_scan_full(case):
             L = len(s)
             for start in range(0, L - w + 1):
                 sc = window_score(ref.lp, s, start)
-                status = ref.status(sc)
+                ex = ref.window_exact(s, start)
+                status = ref.status(sc, ex)
                 k = (mi, si, start, st)
                 word = s[start:start + w]
+                if ex:
+                    stats['exact_windows'] += 1
+                    stats['exact_ties'] += sc == ref.T_lo == ref.T_hi
                 if status == 'must':
                     stats['expected'] += 1
                     stats['expected_last'] += start == L - w
                     stats['expected_first'] += start == 0
                     stats['neg_score_hits'] += sc < 0
+                    stats['beyond_65535'] += start + w > 65535
+                    stats['seqidx_ge_128'] += si >= 128
                     if k not in got:
                         _add(out, classify(ref, (mi, st), sc, start, L, 'missing', word),
                              'window not reported: motif %d (w=%d) strand %s seq %d (L=%d) start %d word %s score %r > score threshold %r'
@@ -393,10 +402,11 @@ def check_scan_full(case):
                     stats['free'] += 1
                 elif k in got:
                     r = got[k][0]
-                    _add(out, classify(ref, (mi, st), sc, start, L, 'extra'),
+                    _add(out, classify(ref, (mi, st), sc, start, L, 'extra', ex=ex),
                          'window reported although its score does not exceed the score threshold: motif %d (w=%d) strand %s seq %d '
-                         'start %d word %s score %r <= threshold %r (threshold bin %d, exact p of the score bin %s >= %r); reported p-value %r'
-                         % (mi, w, st, si, start, word, sc, ref.T_hi, ref.b_hi, '/'.join(repr(c) for c in ref.p_candidates(sc)), thr, float(r['p-value'])))
+                         'start %d word %s score %r <= threshold %r (threshold bin %d, exact p of the score bin %s >= %r); reported p-value %r%s'
+                         % (mi, w, st, si, start, word, sc, ref.T_hi, ref.b_hi, '/'.join(repr(c) for c in ref.p_candidates(sc, ex)), thr, float(r['p-value']),
+                            ' [all terms are dyadic: the comparison is exact, no rounding involved]' if ex else ''))
     # 2. every reported row
     for k, rs in got.items():
         mi, si, start, st = k
@@ -427,7 +437,7 @@ def check_scan_full(case):
             _add(out, classify(ref, (mi, st), sc, start, L, 'p>=thr'),
                  'reported hit has p-value %r, not below the threshold %r: motif %d (w=%d) strand %s seq %d start %d word %s score %r '
                  '(exact score threshold %r, as float32 %r)' % (gp, thr, mi, w, st, si, start, word, sc, ref.T_lo, float(numpy.float32(ref.T_lo))))
-        cands = ref.p_candidates(sc)
+        cands = ref.p_candidates(sc, ref.window_exact(seqs[si], start))
         if math.isnan(gp) or not any(abs(gp - c) <= 1e-9 * max(c, 1e-300) for c in cands):
             _add(out, classify(ref, (mi, st), sc, start, L, 'pvalue'),
                  'p-value %r is not the table entry of the score bin (exact %s): motif %d (w=%d) strand %s seq %d start %d score %r'
@@ -457,7 +467,7 @@ def check_scan_full(case):
                     # the two runs score the window with the columns in opposite order: allow the float guard
                     L = len(seqs[si])
                     sc = window_score(ref.lp, seqs[si], start)
-                    status = ref.status(sc)
+                    status = ref.status(sc, ref.window_exact(seqs[si], start))
                     if status == 'free':
                         continue
                     if start == L - ref.w and k not in a and status == 'must':
@@ -479,6 +489,19 @@ def check_scan_full(case):
                         fnd = 'pvalue-table-wrong'
                     _add(out, fnd, '%s: hit %r has p-values %r vs %r' % (what, k, p1, p2), limit=2)
 
+    def fields_ok(rows2, what):
+        """rows of a secondary run: end = start + width, motif_name, window inside the sequence (the sequences of
+        every secondary run have the lengths of the base run)"""
+        for r in rows2:
+            mi, si, start = int(r['motif_idx']), r['si'], int(r['start'])
+            if not (0 <= mi < len(pwms) and 0 <= si < len(seqs)):
+                _add(out, None, '%s: hit with impossible motif_idx %d / sequence %d' % (what, mi, si), limit=1)
+                continue
+            w = len(pwms[mi][0])
+            if int(r['end']) != start + w or not (0 <= start <= len(seqs[si]) - w) or r['motif_name'] != names[mi] or r['strand'] not in strands:
+                _add(out, None, '%s: row motif_idx %d (w=%d, name %r) motif_name %r seq %d (L=%d) start %d end %d strand %r has a wrong field'
+                     % (what, mi, w, names[mi], r['motif_name'], si, len(seqs[si]), start, int(r['end']), r['strand']), limit=1)
+
     def counts_check(label, **kw):
         try:
             cnt, _ = run_real(case, counts=True, **kw)
@@ -497,6 +520,7 @@ def check_scan_full(case):
                 return
             rseqs = [revcomp(s) for s in seqs]
             rows2, _ = run_real(case, seqs=rseqs)
+            fields_ok(rows2, 'scan of the reverse-complemented sequences')
             back = {}
             for (mi, si, start, st), v in as_map(rows2).items():
                 w = len(pwms[mi][0]) if 0 <= mi < len(pwms) else 0
@@ -506,6 +530,7 @@ def check_scan_full(case):
             same(base, back, 'scan of the reverse-complemented sequences is not the mirror image', mirror=True)
         elif rel == 'dim1':
             rows2, nfr = run_real(case, dim=1)
+            fields_ok(rows2, 'dim=1')
             same(base, as_map(rows2), 'dim=1 vs dim=0', exact=True)
             if len(rows2) != len(rows):
                 _add(out, None, 'dim=1 returns %d rows, dim=0 %d' % (len(rows2), len(rows)))
@@ -516,15 +541,19 @@ def check_scan_full(case):
                 _add(out, None, 'dim=1: DataFrames are not one-per-sequence: %r' % ({k: sorted(v) for k, v in fr.items()},))
         elif rel == 'counts':
             counts_check('')
+        elif rel == 'counts-dim1':
+            counts_check('dim=1: ', dim=1)
         elif rel == 'other-input':
             if len({len(s) for s in seqs}) == 1:
                 other = 'fasta' if case['input'] == 'tensor' else 'tensor'
                 rows2, _ = run_real(case, inp=other)
+                fields_ok(rows2, '%s input' % other)
                 same(base, as_map(rows2), '%s vs %s input' % (case['input'], other), exact=True)
                 if len(rows2) != len(rows):
                     _add(out, None, '%s input returns %d rows, %s input %d' % (other, len(rows2), case['input'], len(rows)))
         elif rel == 'meme':
             rows2, _ = run_real(case, meme=True)
+            fields_ok(rows2, 'MEME file input')
             same(base, as_map(rows2), 'dict of PWMs vs MEME file of the same PWMs', exact=True)
             bad = [r for r in rows2 if 0 <= int(r['motif_idx']) < len(names) and r['motif_name'] != names[int(r['motif_idx'])]]
             if bad:
@@ -532,6 +561,7 @@ def check_scan_full(case):
         elif isinstance(rel, list) and rel and rel[0] == 'threads':
             for t in rel[1:]:
                 rows2, _ = run_real(case, threads=t)
+                fields_ok(rows2, 'numba threads=%d' % t)
                 if len(rows2) != len(rows):
                     _add(out, None, 'numba threads=%d: %d rows vs %d' % (t, len(rows2), len(rows)))
                 same(base, as_map(rows2), 'numba threads=%d vs %s' % (t, case.get('threads') or 'default'), exact=True)
@@ -548,8 +578,54 @@ def check_scan_full(case):
 
 # ----------------------------------------------------------------------------- generators
 
-def rand_seq(rng, L, pN=0.03):
-    return ''.join('N' if rng.random() < pN else rng.choice(ALPHA) for _ in range(L))
+UNKNOWN = 'NNNNRYKMSWBDHVX'        # N and the other IUPAC ambiguity codes: all "unknown characters"
+
+
+def rand_seq(rng, L, pN=0.03, iupac=False):
+    unk = UNKNOWN if iupac else 'N'
+    return ''.join(rng.choice(unk) if rng.random() < pN else rng.choice(ALPHA) for _ in range(L))
+
+
+def pick_pN(rng):
+    """mostly a few unknown characters; sometimes many, sometimes nothing else (score 0 everywhere)"""
+    return rng.choice([0.03, 0.03, 0.03, 0.0, 0.25, 0.6, 1.0])
+
+
+def palindromic_pwm(rng, w):
+    """P == P[::-1, ::-1]: the motif is its own reverse complement, every hit exists on both strands"""
+    p = random_pwm(rng, w)
+    for j in range(w):
+        for k in range(4):
+            if (w - 1 - j, 3 - k) < (j, k):
+                p[k][j] = p[3 - k][w - 1 - j]
+    if w % 2:
+        j = w // 2
+        a = rng.random() * 0.5
+        p[0][j] = p[3][j] = a
+        p[1][j] = p[2][j] = 0.5 - a
+    return p
+
+
+MOTIF_NAMES = ['MA0139.1', 'CTCF-rc', 'CTCF', 'x', 'motif_with_a_long_name_17', 'GATA1::TAL1', 'm-rc-rc', 'Z', '0', 'm1']
+SEQ_NAMES = ['chr10', 'chr2', 'chrX', 'scaffold_1|size=12', 'b', 'a', 'Seq-7', 'chr1', '10', '9']
+
+
+def pick_variants(rng, case):
+    """container / dtype / layout / naming variants of the SAME mathematical input (all JSON-able, replayed)"""
+    if rng.random() < 0.45:
+        case['xvar'] = rng.choice(X_VARIANTS)              # used whenever the sequences are passed as an array
+    if rng.random() < 0.3:
+        case['pvar'] = rng.choice(P_VARIANTS)
+    if rng.random() < 0.35:
+        case['names'] = rng.sample(MOTIF_NAMES, len(case['pwms']))
+    ns = len(case['seqs'])
+    if rng.random() < 0.45:
+        pool = rng.sample(SEQ_NAMES, len(SEQ_NAMES)) + ['ctg%d' % ((7 * i + 3) % 1000) for i in range(max(0, ns - len(SEQ_NAMES)))]
+        case['snames'] = pool[:ns]
+        case['desc'] = rng.random() < 0.5
+    if rng.random() < 0.3:
+        case['lower'] = rng.choice([1, 2, 3])
+    return case
 
 
 def consensus(pwm):
@@ -566,16 +642,27 @@ def pick_threshold(rng, w):
 def gen_random(rng, thorough):
     nm = rng.randint(1, 8)
     pwms = [random_pwm(rng, rng.randint(2, 20) if rng.random() < 0.5 else rng.randint(2, 8)) for _ in range(nm)]
+    for i in range(nm):
+        u = rng.random()
+        if u < 0.08:
+            pwms[i] = palindromic_pwm(rng, len(pwms[i][0]))
+        elif u < 0.16 and i > 0:
+            pwms[i] = [list(r) for r in pwms[rng.randrange(i)]]          # the same matrix under two names
+        elif u < 0.22 and i > 0:
+            q = pwms[rng.randrange(i)]
+            pwms[i] = [list(q[3 - k][::-1]) for k in range(4)]           # a motif and its reverse complement both listed
     wmin = min(len(p[0]) for p in pwms)
     wmax = max(len(p[0]) for p in pwms)
     inp = rng.choice(['tensor', 'fasta'])
     ns = rng.randint(1, 4)
     Lmax = 400 if thorough else 120
+    iupac = rng.random() < 0.4
     if inp == 'tensor':
         L = rng.choice([rng.randint(1, Lmax), wmax, wmin, rng.randint(wmin, wmax + 3)])
-        seqs = [rand_seq(rng, L) for _ in range(ns)]
+        seqs = [rand_seq(rng, L, pick_pN(rng), iupac) for _ in range(ns)]
     else:
-        seqs = [rand_seq(rng, rng.choice([rng.randint(1, Lmax), wmax, wmin, max(1, wmin - 1), rng.randint(1, wmax + 3)])) for _ in range(ns)]
+        seqs = [rand_seq(rng, rng.choice([rng.randint(1, Lmax), wmax, wmin, max(1, wmin - 1), rng.randint(1, wmax + 3)]), pick_pN(rng), iupac)
+                for _ in range(ns)]
     # plant consensus words (either strand) at the ends and inside, so that hits exist
     for _ in range(rng.randint(0, 4)):
         p = rng.choice(pwms)
@@ -588,8 +675,8 @@ def gen_random(rng, thorough):
             o = rng.choice([0, len(s) - len(word), rng.randint(0, len(s) - len(word))])
             seqs[si] = s[:o] + word + s[o + len(word):]
     thr = pick_threshold(rng, rng.choice([wmin, wmax]))
-    return {'kind': 'scan', 'pwms': pwms, 'seqs': seqs, 'input': inp, 'eps': rng.choice(EPSS), 'bin': rng.choice(BINS),
-            'threshold': thr, 'rc': rng.random() < 0.75, 'wrap': rng.choice([None, None, 7, 40]) if inp == 'fasta' else None}
+    return pick_variants(rng, {'kind': 'scan', 'pwms': pwms, 'seqs': seqs, 'input': inp, 'eps': rng.choice(EPSS), 'bin': rng.choice(BINS),
+                               'threshold': thr, 'rc': rng.random() < 0.75, 'wrap': rng.choice([None, None, 7, 40]) if inp == 'fasta' else None})
 
 
 def gen_planted(rng, thorough):
@@ -608,8 +695,8 @@ def gen_planted(rng, thorough):
         seqs.append(bg[:o] + word + bg[o + w:])
     thr = pick_threshold(rng, w)
     inp = rng.choice(['tensor', 'tensor', 'fasta'])
-    return {'kind': 'scan', 'pwms': pwms, 'seqs': seqs, 'input': inp, 'eps': rng.choice(EPSS), 'bin': rng.choice(BINS),
-            'threshold': thr, 'rc': True if use_rc else rng.random() < 0.6, 'wrap': None}
+    return pick_variants(rng, {'kind': 'scan', 'pwms': pwms, 'seqs': seqs, 'input': inp, 'eps': rng.choice(EPSS), 'bin': rng.choice(BINS),
+                               'threshold': thr, 'rc': True if use_rc else rng.random() < 0.6, 'wrap': None})
 
 
 def _steer_threshold(lp, bin_size, thr, ref):
@@ -699,13 +786,236 @@ def pick_relations(rng, case, thorough):
     rel = []
     if rng.random() < 0.5:
         return rel
-    pool = ['mirror', 'dim1', 'counts', 'other-input', 'meme', 'threads']
+    pool = ['mirror', 'dim1', 'counts', 'counts-dim1', 'other-input', 'meme', 'threads']
     for r in rng.sample(pool, rng.randint(1, 3)):
         if r == 'threads':
             rel.append(['threads'] + (list(range(1, 17)) if thorough else rng.sample([1, 2, 3, 5, 8, 16], 2)))
         else:
             rel.append(r)
     return rel
+
+
+# ----------------------------------------------------------------------------- exact (dyadic) family
+
+DY_EPS = [2.0 ** -10, 2.0 ** -7, 2.0 ** -4, 2.0 ** -13]      # inside the eps range 1e-6..0.1
+DY_BINS = [1.0, 1.0, 1.0, 1.0, 0.5, 0.25]      # integer scores: only bin 1 puts the threshold ON an attainable score
+
+
+def dyadic_column(rng, e):
+    """a probability column (sums to 1) whose entries + e are powers of two, so that log2((p+e)/0.25) is an integer;
+    kinds D and E have one entry that is not (windows through it keep the float guard)"""
+    kind = rng.choice('AABBCCDE')
+    col = {'A': [0.5 - e, 0.5 - e, e, e],
+           'B': [0.5 - e, 0.25 - e, 0.25 - e, 3 * e],
+           'C': [1.0 - e, e, 0.0, 0.0],
+           'D': [0.25 - e, 0.25 - e, 0.25 - e, 0.25 + 3 * e],
+           'E': [0.5 - e, 0.25 - e, 0.125 - e, 0.125 + 3 * e]}[kind]
+    rng.shuffle(col)
+    return col
+
+
+def word_with_score(rng, lp, target, tries=30):
+    """a word (letter indices) whose window score is exactly `target`, found by degrading the consensus"""
+    w = lp.shape[1]
+
+    def total(word):
+        sc = 0.0
+        for j in range(w):
+            sc += float(lp[word[j], j])
+        return sc
+
+    for _ in range(tries):
+        word = [max(range(4), key=lambda k: (float(lp[k, j]), rng.random())) for j in range(w)]
+        sc = total(word)
+        for _ in range(6 * w):
+            if sc <= target:
+                break
+            j, k = rng.randrange(w), rng.randrange(4)
+            old = word[j]
+            word[j] = k
+            ns = total(word)
+            if target <= ns < sc:
+                sc = ns
+            else:
+                word[j] = old
+        if total(word) == target:
+            return ''.join(ALPHA[k] for k in word)
+    return None
+
+
+def gen_dyadic(rng, thorough):
+    """directed: PWMs whose log-odds are integers and a power-of-two bin size: scores, the score threshold and the
+    score bins are exact, windows scoring EXACTLY the threshold (must not be reported) and just above it (must be)
+    are planted at start 0, at L - w and inside, on either strand"""
+    e, bin_size = rng.choice(DY_EPS), rng.choice(DY_BINS)
+    nm = rng.randint(1, 3)
+    pwms = []
+    for _ in range(nm):
+        w = rng.randint(2, 12 if thorough else 9)
+        cols = [dyadic_column(rng, e) for _ in range(w)]
+        p = [[cols[i][k] for i in range(w)] for k in range(4)]
+        if rng.random() < 0.2:                                 # palindromic: same entries, P == P[::-1, ::-1]
+            for j in range(w):
+                for k in range(4):
+                    if (w - 1 - j, 3 - k) < (j, k):
+                        p[k][j] = p[3 - k][w - 1 - j]
+        pwms.append(p)
+    wmax = max(len(p[0]) for p in pwms)
+    wmin = min(len(p[0]) for p in pwms)
+    thr = pick_threshold(rng, rng.choice([wmin, wmax]))
+    rc = rng.random() < 0.7
+    inp = rng.choice(['tensor', 'fasta'])
+    ns = rng.randint(1, 3)
+    L0 = wmax + rng.randint(0, 25)
+    lens = [L0] * ns if inp == 'tensor' else [rng.choice([L0, wmax, wmin, rng.randint(1, L0)]) for _ in range(ns)]
+    seqs = [rand_seq(rng, L, rng.choice([0.0, 0.03, 0.2])) for L in lens]
+    for mi, p in enumerate(pwms):
+        for st in (('+', '-') if rc else ('+',)):
+            ref = Ref(p, st, e, bin_size, thr)
+            if ref.tie or ref.b_lo != ref.b_hi or not math.isfinite(ref.T_lo):
+                continue
+            for target in (ref.T_lo, ref.T_lo + bin_size, ref.T_lo, ref.T_lo + 1.0, ref.T_lo, ref.T_lo - 1.0):
+                word = word_with_score(rng, ref.lp, target)
+                if word is None:
+                    continue
+                si = rng.randrange(ns)
+                q = seqs[si]
+                if len(q) >= len(word):
+                    o = rng.choice([0, len(q) - len(word), rng.randint(0, len(q) - len(word))])
+                    seqs[si] = q[:o] + word + q[o + len(word):]
+    return pick_variants(rng, {'kind': 'scan', 'pwms': pwms, 'seqs': seqs, 'input': inp, 'eps': e, 'bin': bin_size, 'threshold': thr,
+                               'rc': rc, 'wrap': rng.choice([None, 5]) if inp == 'fasta' else None, 'directed': 'dyadic'})
+
+
+# ----------------------------------------------------------------------------- call histories
+
+def _plant_consensus(rng, pwms, seqs, rc):
+    seqs = list(seqs)
+    for p in pwms:
+        word = consensus(p)
+        if rc and rng.random() < 0.4:
+            word = revcomp(word)
+        si = rng.randrange(len(seqs))
+        q = seqs[si]
+        if len(q) >= len(word):
+            o = rng.choice([0, len(q) - len(word), rng.randint(0, len(q) - len(word))])
+            seqs[si] = q[:o] + word + q[o + len(word):]
+    return seqs
+
+
+HISTORY_CHANGES = ['values', 'values', 'values', 'eps', 'bin', 'threshold', 'rc', 'seqs', 'input', 'same', 'order', 'count']
+
+
+def gen_history(rng, thorough):
+    """3-5 consecutive fimo() calls in one process; each call differs from the previous one in ONE respect (PWM values
+    under the same names and widths, eps, bin size, threshold, strands, sequences, input kind, motif order, number of
+    motifs, or nothing) and EVERY call is judged in full against the reference: nothing may be carried over from an
+    earlier call.  With share=True the very same dict and tensor objects are passed again (updated in place)."""
+    nm = rng.randint(1, 3)
+    widths = [rng.randint(2, 8) for _ in range(nm)]
+    pwms = [random_pwm(rng, w) for w in widths]
+    L = max(widths) + rng.randint(0, 25)
+    rc = rng.random() < 0.7
+    ns = rng.randint(1, 3)
+    step = {'kind': 'scan', 'pwms': pwms, 'seqs': _plant_consensus(rng, pwms, [rand_seq(rng, L) for _ in range(ns)], rc),
+            'input': rng.choice(['tensor', 'fasta']), 'eps': rng.choice(EPSS), 'bin': rng.choice(BINS),
+            'threshold': pick_threshold(rng, min(widths)), 'rc': rc, 'wrap': None, 'relations': []}
+    steps = [step]
+    for _ in range(rng.randint(2, 4)):
+        new = {k: v for k, v in steps[-1].items() if not k.startswith('_')}
+        new['pwms'] = [[list(r) for r in p] for p in new['pwms']]
+        ch = rng.choice(HISTORY_CHANGES)
+        if ch == 'values':
+            new['pwms'] = [random_pwm(rng, len(p[0])) for p in new['pwms']]
+            new['seqs'] = _plant_consensus(rng, new['pwms'], new['seqs'], new['rc'])
+        elif ch == 'eps':
+            new['eps'] = rng.choice([x for x in EPSS if x != new['eps']])
+        elif ch == 'bin':
+            new['bin'] = rng.choice([x for x in BINS if x != new['bin']])
+        elif ch == 'threshold':
+            new['threshold'] = rng.choice([x for x in THRESHOLDS[:4] if x != new['threshold']])
+        elif ch == 'rc':
+            new['rc'] = not new['rc']
+        elif ch == 'seqs':
+            L2 = rng.choice([L, L, max(widths), L + rng.randint(1, 9)])
+            new['seqs'] = _plant_consensus(rng, new['pwms'], [rand_seq(rng, L2) for _ in range(rng.randint(1, 3))], new['rc'])
+        elif ch == 'input':
+            new['input'] = 'fasta' if new['input'] == 'tensor' else 'tensor'
+        elif ch == 'order':
+            new['pwms'] = new['pwms'][::-1]
+        elif ch == 'count':
+            if len(new['pwms']) > 1 and rng.random() < 0.5:
+                new['pwms'] = new['pwms'][:-1]
+            else:
+                new['pwms'] = new['pwms'] + [random_pwm(rng, rng.randint(2, 8))]
+        new['change'] = ch
+        new['relations'] = [rng.choice(['counts', 'dim1', 'meme', 'counts-dim1'])] if rng.random() < 0.3 else []
+        steps.append(new)
+    return {'kind': 'history', 'steps': steps, 'share': rng.random() < 0.5}
+
+
+def check_history(hist):
+    """returns (list of (finding, message), list of per-step stats)"""
+    out, stats = [], []
+    store = None
+    try:
+        for i, step in enumerate(hist['steps']):
+            if hist.get('share'):
+                names = names_of(step)
+                if store is not None and list(store) == names and all(store[n].shape[1] == len(p[0]) for n, p in zip(names, step['pwms'])):
+                    with torch.no_grad():
+                        for n, p in zip(names, step['pwms']):
+                            store[n].copy_(torch.tensor(p, dtype=torch.float64))
+                else:
+                    store = build_motifs(step, None)
+                _SHARED['motifs'] = store
+            res = check_scan_full(step)
+            stats.append(step.pop('_stats', {}))
+            for f, m in res:
+                out.append((f, 'call %d of %d (changed since the previous call: %s): %s' % (i + 1, len(hist['steps']), step.get('change', '-'), m)))
+    finally:
+        _SHARED['motifs'] = None
+    return out, stats
+
+
+# ----------------------------------------------------------------------------- scale
+
+def gen_scale(rng, thorough, k):
+    """sizes beyond one byte / two bytes: > 255 sequences (tensor and FASTA), positions > 65535"""
+    kind = ['many-tensor', 'many-fasta', 'long-fasta', 'long-tensor'][k % (4 if thorough else 3)]
+    w = 4
+    eps, bin_size, thr = rng.choice(EPSS[1:5]), rng.choice([0.1, 0.25]), rng.choice([1e-1, 3e-2])
+    for _ in range(20):                     # a motif whose consensus is a hit at this threshold
+        p0 = random_pwm(rng, w)
+        ref = Ref(p0, '+', eps, bin_size, thr)
+        if not ref.tie and ref.status(window_score(ref.lp, consensus(p0), 0)) == 'must':
+            break
+    pwms = [p0] + ([random_pwm(rng, rng.randint(2, 5))] if rng.random() < 0.5 else [])
+    if kind == 'many-tensor':
+        L = rng.randint(6, 10)
+        seqs = [rand_seq(rng, L) for _ in range(rng.randint(258, 300))]
+        inp = 'tensor'
+    elif kind == 'many-fasta':
+        seqs = [rand_seq(rng, rng.randint(1, 12)) for _ in range(rng.randint(258, 300))]
+        inp = 'fasta'
+    elif kind == 'long-fasta':
+        seqs = [rand_seq(rng, rng.randint(66000, 70000), 0.01), rand_seq(rng, rng.randint(5, 300))]
+        inp = 'fasta'
+    else:
+        L = rng.randint(40000, 45000)
+        seqs = [rand_seq(rng, L, 0.01), rand_seq(rng, L, 0.01)]
+        inp = 'tensor'
+    if kind.startswith('long'):
+        pwms = pwms[:1]
+        # the consensus at the far end, so that the highest positions carry hits
+        word = consensus(pwms[0])
+        seqs[0] = seqs[0][:-len(word)] + word
+    case = {'kind': 'scan', 'pwms': pwms, 'seqs': seqs, 'input': inp, 'eps': eps, 'bin': bin_size,
+            'threshold': thr, 'rc': rng.random() < 0.5, 'wrap': rng.choice([None, 60]) if inp == 'fasta' else None,
+            'directed': kind}
+    if kind.startswith('many') and rng.random() < 0.5:
+        case['snames'] = ['ctg%d' % ((7 * i + 3) % 1000) for i in range(len(seqs))]
+    return case
 
 
 # ----------------------------------------------------------------------------- driver
@@ -715,17 +1025,31 @@ HEADS = {
     'float32-score-threshold': 'score between the exact score threshold and its float32 rounding',
     'return-counts-forward-only-raises': 'return_counts=True with reverse_complement=False raises IndexError',
     'pvalue-table-wrong': 'hit set / p-values wrong because the p-value table of the motif is wrong (C11)',
+    'score-equal-to-threshold-reported': 'window whose score EQUALS the score threshold (exact arithmetic) is reported',
     None: 'fimo output differs from the reference scanner',
 }
 
+STAT_KEYS = ['expected', 'expected_last', 'expected_first', 'neg_score_hits', 'reported', 'exact_windows', 'exact_ties', 'beyond_65535',
+             'seqidx_ge_128']
+
+
+def _sample(case, stats):
+    return {'widths': [len(p[0]) for p in case['pwms']], 'lengths': [len(s) for s in case['seqs']][:6], 'input': case['input'],
+            'threshold': case['threshold'], 'rc': case['rc'], 'relations': case.get('relations', []),
+            'variants': {k: case[k] for k in ('xvar', 'pvar', 'names', 'snames', 'desc', 'lower') if case.get(k)}, 'stats': stats}
+
 
 def _one(rep, case, key, section):
-    res = check_scan_full(case)
-    stats = case.pop('_stats', {})
-    nontrivial = stats.get('expected', 0) > 0
-    rep.case(key, nontrivial=nontrivial, section=section,
-             sample={'widths': [len(p[0]) for p in case['pwms']], 'lengths': [len(s) for s in case['seqs']][:6], 'input': case['input'],
-                     'threshold': case['threshold'], 'rc': case['rc'], 'relations': case.get('relations', []), 'stats': stats})
+    if case.get('kind') == 'history':
+        res, sts = check_history(case)
+        stats = {k: sum(st.get(k, 0) for st in sts) for k in STAT_KEYS}
+        for i, st in enumerate(sts):
+            rep.case((key, i), nontrivial=st.get('expected', 0) > 0, section=section, sample=_sample(case['steps'][i], st))
+    else:
+        res = check_scan_full(case)
+        stats = case.pop('_stats', {})
+        nontrivial = stats.get('expected', 0) > 0 or stats.get('exact_ties', 0) > 0
+        rep.case(key, nontrivial=nontrivial, section=section, sample=_sample(case, stats))
     by = {}
     for f, m in res:
         by.setdefault(f, []).append(m)
@@ -736,21 +1060,28 @@ def _one(rep, case, key, section):
 
 def run(rep):
     import time
+    torch.set_num_threads(1)
     thorough = rep.tier == 'thorough'
     budget = rep.budget_s
-    tot = {'expected': 0, 'expected_last': 0, 'expected_first': 0, 'neg_score_hits': 0, 'reported': 0}
+    tot = {k: 0 for k in STAT_KEYS}
+    used = {}
 
     def acc(st):
         for k in tot:
             tot[k] += st.get(k, 0)
 
-    # (section, generator, share of the time budget, number of attempts, with relations)
-    plan = [('planted-every-offset', gen_planted, 0.22, 2500 if thorough else 55, True),
-            ('directed-float32-threshold', gen_float32, 0.10, 1500 if thorough else 80, False),
-            ('random', gen_random, 0.45, 6000 if thorough else 170, True)]
+    scale_k = itertools.count()
+    # (section, generator, share of the time budget, number of attempts, with relations); cheap directed families first
+    plan = [('dyadic-exact-threshold', gen_dyadic, 0.12, 900 if thorough else 60, True),
+            ('call-history', gen_history, 0.12, 500 if thorough else 24, False),
+            ('planted-every-offset', gen_planted, 0.18, 2500 if thorough else 55, True),
+            ('directed-float32-threshold', gen_float32, 0.07, 1500 if thorough else 80, False),
+            ('scale', lambda r, t: gen_scale(r, t, next(scale_k)), 0.08, 8 if thorough else 3, False),
+            ('random', gen_random, 0.40, 6000 if thorough else 170, True)]
     for section, gen, share, n, with_rel in plan:
         rng = random.Random('%s-%s-%s' % (rep.seed, rep.tier, section))
-        t_end = time.time() + budget * share
+        t0 = time.time()
+        t_end = t0 + budget * share
         made = 0
         for k in range(n):
             if time.time() > t_end or rep.out_of_time():
@@ -759,16 +1090,25 @@ def run(rep):
             case = gen(rng, thorough)
             if case is None:
                 continue
-            case['relations'] = pick_relations(rng, case, thorough) if with_rel else []
-            if len(case['pwms']) > 1 and rng.random() < 0.3:
-                case['threads'] = rng.choice([1, 2, 4, 7, 16])
+            if case['kind'] == 'scan':
+                case['relations'] = pick_relations(rng, case, thorough) if with_rel else []
+                if len(case['pwms']) > 1 and rng.random() < 0.3:
+                    case['threads'] = rng.choice([1, 2, 4, 7, 16])
             acc(_one(rep, case, (section, k), section))
             made += 1
+        used[section] = round(time.time() - t0, 1)
     rep.note('windows the reference requires to be reported: %(expected)d (at start 0: %(expected_first)d, at start L-w: %(expected_last)d, '
-             'with negative score: %(neg_score_hits)d); rows reported by fimo: %(reported)d' % tot)
+             'with negative score: %(neg_score_hits)d, ending beyond position 65535: %(beyond_65535)d, in sequence number >= 128: '
+             '%(seqidx_ge_128)d); rows reported by fimo: %(reported)d; windows judged without float guard (dyadic terms): '
+             '%(exact_windows)d, of which score == score threshold exactly (must not be reported): %(exact_ties)d' % tot)
+    rep.note('seconds per section: %r' % (used,))
 
 
 def replay(case):
+    if case.get('kind') == 'history':
+        c = dict(case, steps=[dict(st) for st in case['steps']])
+        res, _ = check_history(c)
+        return ['[%s] %s' % (f, m) for f, m in res]
     if case.get('kind') != 'scan':
         return ['unknown replay kind']
     c = dict(case)
